@@ -39,16 +39,16 @@ def M2.spec : M2 → Metric
 
 def d (n k : Nat) : Nat := ofDec n k
 
-def wAV  : List (Int × Nat) := [(1, d 395 3), (2, d 646 3), (3, one)]
-def wAC  : List (Int × Nat) := [(1, d 35 2), (2, d 61 2), (3, d 71 2)]
-def wAu  : List (Int × Nat) := [(1, d 704 3), (2, d 56 2), (3, d 45 2)]
-def wCIA : List (Int × Nat) := [(1, 0), (2, d 275 3), (3, d 66 2)]
-def wE   : List (Int × Nat) := [(1, one), (2, d 85 2), (3, d 9 1), (4, d 95 2), (5, one)]
-def wRL  : List (Int × Nat) := [(1, one), (2, d 87 2), (3, d 9 1), (4, d 95 2), (5, one)]
-def wRC  : List (Int × Nat) := [(1, one), (2, d 9 1), (3, d 95 2), (4, one)]
-def wCDP : List (Int × Nat) := [(1, 0), (2, 0), (3, d 1 1), (4, d 3 1), (5, d 4 1), (6, d 5 1)]
-def wTD  : List (Int × Nat) := [(1, one), (2, 0), (3, d 25 2), (4, d 75 2), (5, one)]
-def wReq : List (Int × Nat) := [(1, one), (2, d 5 1), (3, one), (4, d 151 2)]
+def wAV  : List (Int × Nat) := [(1, 0x3FD947AE147AE148 /-395e-3-/), (2, 0x3FE4AC083126E979 /-646e-3-/), (3, one)]
+def wAC  : List (Int × Nat) := [(1, 0x3FD6666666666666 /-35e-2-/), (2, 0x3FE3851EB851EB85 /-61e-2-/), (3, 0x3FE6B851EB851EB8 /-71e-2-/)]
+def wAu  : List (Int × Nat) := [(1, 0x3FE6872B020C49BA /-704e-3-/), (2, 0x3FE1EB851EB851EC /-56e-2-/), (3, 0x3FDCCCCCCCCCCCCD /-45e-2-/)]
+def wCIA : List (Int × Nat) := [(1, 0), (2, 0x3FD199999999999A /-275e-3-/), (3, 0x3FE51EB851EB851F /-66e-2-/)]
+def wE   : List (Int × Nat) := [(1, one), (2, 0x3FEB333333333333 /-85e-2-/), (3, 0x3FECCCCCCCCCCCCD /-9e-1-/), (4, 0x3FEE666666666666 /-95e-2-/), (5, one)]
+def wRL  : List (Int × Nat) := [(1, one), (2, 0x3FEBD70A3D70A3D7 /-87e-2-/), (3, 0x3FECCCCCCCCCCCCD /-9e-1-/), (4, 0x3FEE666666666666 /-95e-2-/), (5, one)]
+def wRC  : List (Int × Nat) := [(1, one), (2, 0x3FECCCCCCCCCCCCD /-9e-1-/), (3, 0x3FEE666666666666 /-95e-2-/), (4, one)]
+def wCDP : List (Int × Nat) := [(1, 0), (2, 0), (3, 0x3FB999999999999A /-1e-1-/), (4, 0x3FD3333333333333 /-3e-1-/), (5, 0x3FD999999999999A /-4e-1-/), (6, 0x3FE0000000000000 /-5e-1-/)]
+def wTD  : List (Int × Nat) := [(1, one), (2, 0), (3, 0x3FD0000000000000 /-25e-2-/), (4, 0x3FE8000000000000 /-75e-2-/), (5, one)]
+def wReq : List (Int × Nat) := [(1, one), (2, 0x3FE0000000000000 /-5e-1-/), (3, one), (4, 0x3FF828F5C28F5C29 /-151e-2-/)]
 
 /-- `Value()` -/
 def value : M2 → Int → Nat
@@ -155,14 +155,14 @@ def decode (L : Level) (o : Obj2) (vector : Bytes) : Obj2 × Option Err :=
 /-! ### scores -/
 
 def roundTo1 (x : Nat) : Nat := div (round (mul x ten)) ten
-def roundTo2 (x : Nat) : Nat := div (round (mul x (ofNat 100))) (ofNat 100)
+def roundTo2 (x : Nat) : Nat := div (round (mul x hundred)) hundred
 
-def c1041 : Nat := d 1041 2
-def c20 : Nat := ofNat 20
-def c1176 : Nat := d 1176 3
-def c06 : Nat := d 6 1
-def c04 : Nat := d 4 1
-def c15 : Nat := d 15 1
+def c1041 : Nat := 0x4024D1EB851EB852 /-1041e-2-/
+def c20 : Nat := 0x4034000000000000 /-20-/
+def c1176 : Nat := 0x3FF2D0E560418937 /-1176e-3-/
+def c06 : Nat := 0x3FE3333333333333 /-6e-1-/
+def c04 : Nat := 0x3FD999999999999A /-4e-1-/
+def c15 : Nat := 0x3FF8000000000000 /-15e-1-/
 
 /-- `Base.score(impact)` after the validity test -/
 def scoreOfImpact (impact : Nat) (av ac au : Int) : Nat :=
@@ -215,9 +215,9 @@ def score : Level → Obj2 → Nat
 
 /-- `severity(score)`: 0 Unknown, 1 Low, 2 Medium, 3 High -/
 def severityF (x : Nat) : Int :=
-  if le 0 x && lt x (ofNat 4) then 1
-  else if le (ofNat 4) x && lt x (ofNat 7) then 2
-  else if le (ofNat 7) x then 3
+  if le 0 x && lt x four then 1
+  else if le four x && lt x seven then 2
+  else if le seven x then 3
   else 0
 
 def severity (L : Level) (o : Obj2) : Int := severityF (score L o)
